@@ -87,16 +87,31 @@ type BoxResp = Response<Box<dyn Read + Send>>;
 
 fn construct(c: &Ctor, tmpdir: &str, id: u64) -> BoxResp {
     match c {
-        Ctor::New { status, hdrs, len, pieces } => Response::new(
-            StatusCode(*status),
-            hdrs.iter().filter_map(mk_header).collect(),
-            Box::new(PieceReader::new(pieces.clone())) as Box<dyn Read + Send>,
-            *len,
-            None,
-        ),
+        Ctor::New { status, hdrs, len, pieces } => {
+            // every third case hands the second half of its headers over through the
+            // `additional_headers` receiver: they are added after the others, in order
+            let all: Vec<Header> = hdrs.iter().filter_map(mk_header).collect();
+            let (first, extra) = if id % 3 == 1 {
+                let k = all.len() / 2;
+                let (tx, rx) = std::sync::mpsc::channel();
+                for h in all[k..].iter().cloned() {
+                    let _ = tx.send(h);
+                }
+                (all[..k].to_vec(), Some(rx))
+            } else {
+                (all, None)
+            };
+            Response::new(StatusCode(*status), first, Box::new(PieceReader::new(pieces.clone())) as Box<dyn Read + Send>, *len, extra)
+        }
         Ctor::Str(s) => Response::from_string(s.clone()).boxed(),
         Ctor::Data(d) => Response::from_data(d.clone()).boxed(),
-        Ctor::Empty(s) => Response::empty(*s).boxed(),
+        Ctor::Empty(s) => {
+            if id % 2 == 1 {
+                Response::empty(*s).clone().boxed()
+            } else {
+                Response::empty(*s).boxed()
+            }
+        }
         Ctor::File(d) => {
             let path = format!("{}/resp-{}-{}.bin", tmpdir, std::process::id(), id);
             std::fs::write(&path, d).unwrap();
